@@ -367,3 +367,127 @@ pub fn refrace(entries: usize) -> String {
     let exact = sorted == (1..=n as u64).collect::<Vec<_>>();
     format!("refrace submitted={} held-before-enter={} held-after-enter={} reaped={:?} exactly-once={}", n, held_before, held_after, reaped, exact)
 }
+
+/// `overflow <dir> <seed> <rounds> <entries>`: on the REAL ring, the part of the kernel contract the batch run never
+/// reaches: every round submits MORE operations than the completion ring holds (cq_entries + 1 .. cq_entries + 2 *
+/// sq_entries, in chunks of at most sq_entries, some with IOSQE_ASYNC, some timeouts) WITHOUT reaping, so the kernel
+/// has to park completions on its overflow list; only then the application reaps (get_next_cqe until None,
+/// io_uring_enter(GETEVENTS) to let the kernel flush, repeat).  All operations of a round are independent (own names),
+/// the same operations are done by direct system calls in the twin directory.  Checked: every user_data exactly once,
+/// result equal to the direct call's, nothing extra afterwards, same directory trees.
+pub fn overflow(dir: &str, seed: u64, rounds: usize, entries: usize) -> String {
+    let a = format!("{}/A", dir);
+    let b = format!("{}/B", dir);
+    let _ = std::fs::remove_dir_all(&a);
+    let _ = std::fs::remove_dir_all(&b);
+    if std::fs::create_dir_all(format!("{}/base_dir", a)).is_err() || std::fs::create_dir_all(format!("{}/base_dir", b)).is_err() { return "bad-op".into(); }
+    for d in [&a, &b] { if std::fs::write(format!("{}/base", d), b"0123456789").is_err() { return "bad-op".into(); } }
+    let mut ring = match setup_io_uring(entries as u32, IoUringParamFlags::empty(), 0, 0) { Ok(r) => r, Err(e) => return format!("setup-err {:?}", e.code) };
+    let fd = ring.fd;
+    let sq = entries.next_power_of_two();
+    let cq = 2 * sq;
+    let mut rng = Rng(seed);
+    let (mut total, mut overflowed, mut inversions, mut max_drain) = (0usize, 0usize, 0usize, 0usize);
+    let mut hist: HashMap<&'static str, usize> = HashMap::new();
+    for round in 0..rounds {
+        let n = cq + 1 + rng.below(2 * sq as u64) as usize;
+        // ---- build the operations (stable storage first)
+        let kinds: Vec<u64> = (0..n).map(|_| rng.below(8)).collect();
+        let names: Vec<CString> = (0..n).map(|j| CString::new(match kinds[j] {
+            0 => format!("{}/m{}_{}", a, round, j), 1 => format!("{}/base", a), 2 => format!("{}/nx{}_{}", a, round, j),
+            3 => format!("{}/f{}_{}", a, round, j), 5 => format!("{}/gone{}_{}", a, round, j), 6 => format!("{}/base_dir", a), _ => String::new() }).unwrap()).collect();
+        let mut statx_bufs: Vec<Box<[u8; 256]>> = (0..n).map(|_| Box::new([0u8; 256])).collect();
+        let ts = Box::new(TimeSpec::new(0, 1000));
+        let mut sqes: Vec<IoUringSubmissionQueueEntry> = Vec::new();
+        for j in 0..n {
+            let ud = ((round as u64) << 16) | j as u64;
+            let fl = if kinds[j] != 7 && rng.below(4) == 0 { IoUringSQEFlags::IOSQE_ASYNC } else { IoUringSQEFlags::empty() };
+            let path = unsafe { UnixStr::from_bytes_unchecked(names[j].as_bytes_with_nul()) };
+            let (e, name) = unsafe { match kinds[j] {
+                0 | 6 => (IoUringSubmissionQueueEntry::new_mkdirat(None, path, Mode::from(0o755), ud, fl), if kinds[j] == 0 { "mkdirat" } else { "mkdirat-eexist" }),
+                1 | 2 => (IoUringSubmissionQueueEntry::new_statx(None, path, StatxFlags::empty(), StatxMask::STATX_BASIC_STATS, statx_bufs[j].as_mut_ptr().cast(), ud, fl), if kinds[j] == 1 { "statx" } else { "statx-enoent" }),
+                3 => (IoUringSubmissionQueueEntry::new_openat(None, path, OpenFlags::O_RDWR | OpenFlags::O_CREAT, Mode::from(0o644), ud, fl), "openat-creat"),
+                4 => (IoUringSubmissionQueueEntry::new_close(Fd::try_new(1_000_000 + j as i32).unwrap(), ud, fl), "close-ebadf"),
+                5 => (IoUringSubmissionQueueEntry::new_unlink_at(None, path, false, ud, fl), "unlinkat-enoent"),
+                _ => (IoUringSubmissionQueueEntry::new_timeout(&*ts, true, None, ud, fl), "timeout"),
+            } };
+            hist.entry(name).and_modify(|c| *c += 1).or_insert(1);
+            sqes.push(e);
+        }
+        // ---- submit everything, never reaping
+        let mut it = sqes.into_iter().peekable();
+        let mut guard = 0;
+        while it.peek().is_some() {
+            let mut k = 0u32;
+            while it.peek().is_some() {
+                match ring.get_next_sqe_slot() { Some(slot) => { unsafe { slot.write(it.next().unwrap()) }; k += 1; } None => break }
+            }
+            let pending = ring.flush_submission_queue();
+            let mut left = pending;
+            while left > 0 {
+                match io_uring_enter(fd, left, 0, IoUringEnterFlags::empty()) {
+                    Ok(t) => left -= t as u32,
+                    Err(e) => return format!("mismatch round {} ring-protocol: enter while the completion ring is full: {:?}", round, e.code),
+                }
+                guard += 1;
+                if guard > 100_000 { return format!("mismatch round {} ring-protocol: kernel does not take the submissions", round); }
+            }
+            if k == 0 && pending == 0 { return format!("mismatch round {} ring-protocol: no sqe slot although nothing is pending", round); }
+        }
+        // ---- now reap: drain, let the kernel flush its overflow list, drain, ...
+        let mut got: Vec<(u64, i32)> = Vec::new();
+        let mut spins = 0;
+        while got.len() < n {
+            let mut drained = 0usize;
+            while let Some(c) = ring.get_next_cqe() { got.push((c.0.user_data, c.0.res)); drained += 1; if got.len() > 4 * n { break; } }
+            // (a drain can be longer than the ring: completions of IOSQE_ASYNC / timeout requests are posted by task
+            // work whenever this thread returns to user mode, also between two get_next_cqe calls)
+            max_drain = max_drain.max(drained);
+            if got.len() >= n { break; }
+            if let Err(e) = io_uring_enter(fd, 0, 1, IoUringEnterFlags::IORING_ENTER_GETEVENTS) { return format!("mismatch round {} ring-protocol: enter(GETEVENTS): {:?}", round, e.code); }
+            spins += 1;
+            if spins > 100_000 { return format!("mismatch round {} only {} completions for {} submissions", round, got.len(), n); }
+        }
+        let _ = io_uring_enter(fd, 0, 0, IoUringEnterFlags::IORING_ENTER_GETEVENTS);
+        if let Some(c) = ring.get_next_cqe() { return format!("mismatch round {} more completions than submissions (extra user_data {})", round, c.0.user_data); }
+        if got.len() != n { return format!("mismatch round {} {} completions for {} submissions", round, got.len(), n); }
+        total += n;
+        overflowed += n - cq;
+        for w in got.windows(2) { if w[1].0 < w[0].0 { inversions += 1; } }
+        let mut by_ud: HashMap<u64, i32> = HashMap::new();
+        for (ud, res) in &got { if by_ud.insert(*ud, *res).is_some() { return format!("mismatch round {} duplicate completion for user_data {}", round, ud); } }
+        // ---- the same operations by direct system calls in the twin directory
+        for j in 0..n {
+            let ud = ((round as u64) << 16) | j as u64;
+            let ring_res = match by_ud.get(&ud) { Some(r) => *r as i64, None => return format!("mismatch round {} no completion for user_data {}", round, ud) };
+            let nm = names[j].to_str().unwrap().replacen(&a, &b, 1);
+            let exp: i64 = match kinds[j] {
+                0 | 6 => std::fs::DirBuilder::new().mode(0o755).create(&nm).map(|_| 0).unwrap_or_else(|e| errno_of(&e)),
+                1 | 2 => match std::fs::symlink_metadata(&nm) {
+                    Ok(md) => { use std::os::unix::fs::MetadataExt;
+                        let size = u64::from_le_bytes(statx_bufs[j][40..48].try_into().unwrap());
+                        if ring_res == 0 && size != md.size() { return format!("mismatch round {} op {} statx size ring {} direct {}", round, j, size, md.size()); }
+                        0 }
+                    Err(e) => errno_of(&e) },
+                3 => match std::fs::OpenOptions::new().read(true).write(true).create(true).mode(0o644).open(&nm) {
+                    Ok(_) => { if ring_res >= 0 { unsafe { sc::raw_syscall6(sc::nr::CLOSE, ring_res as usize, 0, 0, 0, 0, 0) }; } if ring_res >= 0 { ring_res } else { 0 } }
+                    Err(e) => errno_of(&e) },
+                4 => { let r = unsafe { sc::raw_syscall6(sc::nr::CLOSE, 1_000_000 + j, 0, 0, 0, 0, 0) } as isize; r as i64 }
+                5 => std::fs::remove_file(&nm).map(|_| 0).unwrap_or_else(|e| errno_of(&e)),
+                _ => -62,
+            };
+            if exp != ring_res { return format!("mismatch round {} op {} kind {}: ring res {}, direct {}", round, j, kinds[j], ring_res, exp); }
+        }
+        let _ = &mut statx_bufs;
+        let la = listing(&a);
+        let lb = listing(&b);
+        if la != lb { return format!("mismatch round {} side effects differ: ring dir {} entries, direct dir {} entries", round, la.len(), lb.len()); }
+        // keep the trees small
+        for d in [&a, &b] { if let Ok(rd) = std::fs::read_dir(d) { for e in rd.filter_map(|e| e.ok()) { let n = e.file_name().to_string_lossy().to_string(); if n != "base" && n != "base_dir" { let _ = std::fs::remove_dir(e.path()); let _ = std::fs::remove_file(e.path()); } } } }
+    }
+    let _ = std::fs::remove_dir_all(&a);
+    let _ = std::fs::remove_dir_all(&b);
+    let mut h: Vec<String> = hist.iter().map(|(k, v)| format!("{}={}", k, v)).collect();
+    h.sort();
+    format!("agree rounds={} ops={} cq-entries={} through-overflow-or-late={} max-drain={} out-of-order-pairs={} {}", rounds, total, cq, overflowed, max_drain, inversions, h.join(" "))
+}
